@@ -192,6 +192,8 @@ class Impl:
         self.lb_fn = lb_fn or lb
         self.freq_fn = freq_fn or freq
         self._cone = None
+        self._panel = None
+        self._cc = None
 
     def conecyl(self):
         if self._cone is None:
@@ -217,7 +219,10 @@ class Impl:
             from compmech.panel import Panel
             p = panel
             if p is None:                       # matrices given: the panel's own builders are stubbed on the instance
-                p = Panel()
+                if self._panel is None:         # (one instance re-used: Panel() runs gc.collect())
+                    self._panel = Panel()
+                p = self._panel
+                p.eigvals = p.eigvecs = None
                 p.k0 = K
                 p.calc_k0 = lambda *a, **kw: K
                 if api == "panel_lb":
@@ -241,7 +246,10 @@ class Impl:
             k0[:q, :q] = np.eye(q)
             k0[q:, q:] = K.toarray()
             kg[q:, q:] = B.toarray()
-            cc = self.conecyl()()
+            if self._cc is None:
+                self._cc = self.conecyl()()
+            cc = self._cc
+            cc.eigvals = cc.eigvecs = None
             cc.model = "clpt_donnell_bc1"
             cc.k0 = csr_matrix(k0)
             cc.kG0 = csr_matrix(kg)
